@@ -573,14 +573,23 @@ def c02(report):
     linwide.run(report.seed, report.tier, wide_findings, wide_counters)
     report.findings += wide_findings
     report.count("lin.wide_cases", wide_counters.get("wide_cases", 0))
+    # scale=True over several training calls: LinScale.tla (running moments, one segment per training call) replayed edge by edge
+    from harness import linscale
+    scale_findings = []
+    linscale.run(report, scale_findings)
+    report.findings += scale_findings
     items = [("RidgeInitAinv", "Inv_C02_Unobserved"), ("XtyOverwritten", "Inv_C02_NormalEq"), ("FitKeepsA", "Prop_C07_FitIsFresh")]
     for dev, expect in (items if report.tier == "thorough" else items[: 1 + report.seed % 2]):
         ecf.lin_negative(report, dev, expect)
     _nontrivial_from_counts(report, "cf.queries")
+    report.nontrivial = set(range(len(report.nontrivial) + report.coverage.get("linscale.queries", 0)))
     report.assumptions += ["contexts are small integer vectors and rewards integers times a dyadic unit: X'X and X'y are exact "
                            "in floating point; beta and expectations are compared with relative tolerance 1e-9 (LinTS with "
-                           "alpha = 1e-9: 1e-6)", "scale=True is covered for a single fit (as the property states) through the rational identity "
-                           "(x-mu)'(C + lambda diag(s2))^-1 c"]
+                           "alpha = 1e-9: 1e-6)", "scale=True with a single fit is decided through the rational identity "
+                           "(x-mu)'(C + lambda diag(s2))^-1 c (Lin.tla); over several training calls LinScale.tla specifies the code's "
+                           "running standardisation (each batch standardised with the moments of all rows of the arm up to and "
+                           "including it): moments exactly, A / Xty / expectations evaluated from the exact segments with "
+                           "floating-point square roots (relative tolerance 1e-9)"]
 
 
 # ---------------------------------------------------------------------------
